@@ -7,6 +7,25 @@ VERIF = os.path.dirname(os.path.dirname(os.path.abspath(__file__)))
 
 # id -> (category, technique, level text, level note, design ref)
 CHECKS = {
+    "C15": (
+        "exploration",
+        "Hypothesis message streams over a small name universe (redefinition, kind mismatch, unknown targets, deletions) x foreign spellings x fragmentation, reference-client differential after every message",
+        "Model-based generated search: the client's public view is compared with an independent reference interpreter of the INDI client "
+        "rules after every message of generated streams (direct), and at the end of the same streams sent as fragmented bytes through "
+        "the real client connection handler, whose receive task must survive. Exploration.",
+        "Trusted: harness/refclient.py (reference interpreter), harness/gen.py serializer.",
+        "DESIGN.md section 4, C15",
+    ),
+    "C16": (
+        "exploration",
+        "Hypothesis histories of stream messages interleaved with callback registration/removal (filters x event types x plain/coroutine/raising/one-shot), reference event derivation + probe-filter differential",
+        "Model-based generated search over histories: the dispatched event sequence (seen by a filter-less probe) must equal, per message, "
+        "the events the reference interpreter derives (change chains per definition epoch), and each callback's log must equal the probe's "
+        "sequence filtered by its predicate and registration window. The generator is measured for the one-shot-followed-by-matching "
+        "class (a harness error if it is empty). Exploration.",
+        "Trusted: harness/refclient.py event derivation; removal-by-criteria semantics as implemented by the documented keyword interface.",
+        "DESIGN.md section 4, C16",
+    ),
     "C20": (
         "exploration",
         "Hypothesis-generated messages x exhaustive single-point perturbation, structural-view oracle",
